@@ -109,7 +109,7 @@ def main():
         "setup_cmd": "./setup.sh",
         "hooks": {
             "guard": "verif",
-            "enable": "no hook lives in /repo: each check copies /repo's working tree to a scratch directory and instruments the copy at build time (tools/simgen: sync->simsync, os->simfs in pkg/storage/file, go/channel/select/map-range rewrites, net.Listen*->simnet); overlay files, if any, carry //go:build verif",
+            "enable": "no hook lives in /repo: each check copies /repo's working tree to a scratch directory and instruments the copy at build time (tools/simgen: sync->simsync, os->simfs in pkg/storage/file, go/channel/select/map-range rewrites, net.Listen*->simnet); one overlay file is added to the copy only (pkg/storage/file/zz_verif_restart.go, //go:build verif, harness built with -tags verif): VerifProcessRestart() restarts the package-level message id counter as a new process does",
             "baseline_off_cmd": "cd /repo && go test -vet=off -count=1 ./...",
             "source_commits": [],
             "add_only": True,
